@@ -67,29 +67,7 @@ def run_harness(binary, casefile, timeout=600):
         raise RuntimeError('harness failed: ' + r.stderr[-2000:])
     return r.stdout
 
-# ---------------------------------------------------------------- Coq term writers
-
-def N(x):
-    return str(int(x))
-
-def lN(xs):
-    return '[' + '; '.join(N(x) for x in xs) + ']'
-
-def hlog(case):
-    return '[' + '; '.join('(%d, %d, %d)' % (0 if iv is None else iv + 1, 0 if v is None else v + 1, f) for iv, v, f in case.h) + ']'
-
-def res_tokens(res):
-    """result tokens -> Coq option (list N); None for 'skipped' lines"""
-    if res == ['skipped']:
-        return None
-    if res == ['panic']:
-        return 'None'
-    if res == ['unit']:
-        return '(Some [])'
-    return '(Some ' + lN(res) + ')'
-
-def ol(oc, args, rnd, res):
-    return 'OL %d %s %s %s' % (oc, lN(args), lN(rnd), res)
+# ---------------------------------------------------------------- model input (numeric form for ocaml/driver.ml)
 
 CMAX = {'u8': 2**8 - 1, 'u16': 2**16 - 1, 'u32': 2**32 - 1, 'u64': 2**64 - 1, 'usize': 2**64 - 1}
 
@@ -101,8 +79,25 @@ OPC = {
     'qf': {'new': 0, 'ins': 2, 'q': 3, 'union': 4, 'clear': 5, 'clone': 6, 'obs': 7},
 }
 
+def res_tokens(res):
+    """result tokens -> expectation text; None for 'skipped' lines"""
+    if res == ['skipped']:
+        return None
+    if res == ['panic']:
+        return 'P'
+    if res == ['unit']:
+        return 'S 0'
+    return 'S %d %s' % (len(res), ' '.join(str(int(x)) for x in res))
+
+def ol(oc, args, rnd, res):
+    a = ' '.join(str(int(x)) for x in args)
+    w = ' '.join(str(int(x)) for x in rnd)
+    return ('O %d %d %s %d %s %s' % (oc, len(args), a, len(rnd), w, res)).replace('  ', ' ').replace('  ', ' ')
+
 def translate_ops(case, aux):
-    """-> list of Coq opline strings (ops the discrete model does not cover are rewritten or routed to `aux`)"""
+    """-> list of (model op line, index of the op in case.ops); ops the discrete model does not cover are
+    rewritten (sizing constructors: the model continues from the parameters the constructor chose) or
+    routed to `aux` (float results: count, relerr, len, sizing), which other models check."""
     out = []
     table = OPC[case.st]
     for k, (op, res, words) in enumerate(case.ops):
@@ -112,88 +107,69 @@ def translate_ops(case, aux):
         name, args = op[0], op[1:]
         if name == 'props' and case.st == 'cuckoo' and res != ['panic']:
             aux.append((case, k, op, res))
-            out.append(ol(0, [args[0], res[0], res[1], res[2]], [], '(Some [])'))
+            out.append((ol(0, [args[0], res[0], res[1], res[2]], [], 'S 0'), k))
             continue
         if name == 'props' and case.st in ('bloom', 'cms') and res != ['panic']:
-            # sizing is a float computation: checked by the sizing model (aux); the discrete model
-            # continues from the parameters the constructor chose
             aux.append((case, k, op, res))
-            out.append(ol(0, [args[0], res[0], res[1]], [], '(Some [])'))
+            out.append((ol(0, [args[0], res[0], res[1]], [], 'S 0'), k))
             continue
         if name not in table:
             aux.append((case, k, op, res))
             continue
-        out.append(ol(table[name], args, words, r))
+        out.append((ol(table[name], args, words, r), k))
     return out
 
-def case_term(case, aux):
-    ops = '[' + ';\n    '.join(translate_ops(case, aux)) + ']'
-    u = int(case.cfg.get('u', 8))
-    if case.st in ('bloom', 'cuckoo', 'qf'):
-        return '(%s, %d, %s)' % (hlog(case), u, ops)
-    if case.st == 'cms':
-        return '(%s, %d, %d, %s)' % (hlog(case), u, CMAX[case.cfg.get('ctype', 'usize')], ops)
-    if case.st == 'hll':
-        return '(%s, %s)' % (hlog(case), ops)
-    raise KeyError(case.st)
-
-EXMOD = {'cuckoo': ('ExCuckoo', 'ck_check'), 'qf': ('ExQuotient', 'qf_check'), 'bloom': ('ExBloom', 'bloom_check'), 'cms': ('ExCms', 'cms_check'), 'hll': ('ExHll', 'hll_check')}
-
-def write_cases_v(path, st, cases, aux):
-    mod, chk = EXMOD[st]
+def write_model_input(path, cases, aux):
+    """returns, per case, the list mapping model op index -> transcript op index"""
+    maps = []
     with open(path, 'w') as f:
-        f.write('From PDS Require Import Exec.%s.\nOpen Scope N_scope.\n' % mod)
-        f.write('Definition cases := [\n  ' + ';\n  '.join(case_term(c, aux) for c in cases) + '].\n')
-        f.write('Definition result := Eval vm_compute in (%s cases).\nPrint result.\n' % chk)
+        for c in cases:
+            u = int(c.cfg.get('u', 8))
+            mx = CMAX[c.cfg.get('ctype', 'usize')]
+            f.write('C %s %d %d\n' % (c.st, u, mx))
+            for iv, v, fin in c.h:
+                f.write('H %d %d %d\n' % (0 if iv is None else iv + 1, 0 if v is None else v + 1, fin))
+            ops = translate_ops(c, aux)
+            for line, _ in ops:
+                f.write(line + '\n')
+            f.write('E\n')
+            maps.append([k for _, k in ops])
+    return maps
 
-def run_coqc(path, timeout=900):
-    r = subprocess.run(['coqc', '-noglob', '-Q', os.path.join(COQ, 'theories'), 'PDS', path], capture_output=True, text=True, timeout=timeout,
-                       cwd=os.path.dirname(path))
-    return r.returncode, r.stdout, r.stderr
+MODELDRV = os.path.join(BUILD, 'ocaml', 'modeldrv')
 
-def parse_result(out):
-    """'result = [(k, i, m); ...]' -> list of (case index, op index, model result text)"""
-    m = re.search(r'result\s*=\s*(.*?)\s*:\s*list', out, re.S)
-    if not m:
-        return None
-    body = ' '.join(m.group(1).split())
-    if body == '[]':
-        return []
-    fails = []
-    # entries look like (k, i, Some [..]) or (k, i, None)
-    for e in re.finditer(r'\((\d+), (\d+), (None|Some \[[^\]]*\])\)', body):
-        fails.append((int(e.group(1)), int(e.group(2)), e.group(3)))
-    return fails if fails else None
-
-def model_check(st, cases, tag, shards=16, per_shard=150):
-    """evaluate the model on the transcript cases; returns (disagreements, aux items, errors)
-       disagreement: (case, op index within translated ops, model result text)"""
+def model_check(st, cases, tag, shards=16):
+    """replay the transcript cases on the extracted model; returns (disagreements, aux items, errors)
+       disagreement: (case, transcript op index, model result text)"""
     os.makedirs(BUILD, exist_ok=True)
-    chunks = [cases[i:i + per_shard] for i in range(0, len(cases), per_shard)]
+    n = max(1, (len(cases) + shards - 1) // shards)
+    chunks = [cases[i:i + n] for i in range(0, len(cases), n)]
     aux, jobs = [], []
-    for n, ch in enumerate(chunks):
-        path = os.path.join(BUILD, 'cases_%s_%s_%d.v' % (tag, st, n))
-        write_cases_v(path, st, ch, aux)
-        jobs.append((path, ch))
+    for k, ch in enumerate(chunks):
+        path = os.path.join(BUILD, 'min_%s_%s_%d.txt' % (tag, st, k))
+        maps = write_model_input(path, ch, aux)
+        jobs.append((path, ch, maps))
     disagreements, errors = [], []
     def work(job):
-        path, ch = job
-        rc, out, err = run_coqc(path)
-        return job, rc, out, err
+        path, ch, maps = job
+        r = subprocess.run(['bash', '-c', 'ulimit -s unlimited 2>/dev/null || ulimit -s 1000000; exec "$0" "$1"', MODELDRV, path], capture_output=True, text=True, timeout=1800)
+        return job, r.returncode, r.stdout, r.stderr
     with ThreadPoolExecutor(max_workers=shards) as ex:
-        for (path, ch), rc, out, err in ex.map(work, jobs):
-            if rc != 0:
-                errors.append('coqc failed on %s: %s' % (path, err[-1500:]))
+        for (path, ch, maps), rc, out, err in ex.map(work, jobs):
+            lines = out.split('\n')
+            if lines and lines[-1] == '':
+                lines.pop()
+            if rc != 0 or len(lines) != len(ch):
+                errors.append('model driver failed on %s (rc=%d, %d/%d results): %s' % (path, rc, len(lines), len(ch), err[-800:]))
                 continue
-            fails = parse_result(out)
-            if fails is None:
-                errors.append('cannot parse coqc output for %s: %s' % (path, out[-500:]))
-                continue
-            for k, i, m in fails:
-                disagreements.append((ch[k], i, m))
-            for ext in ('.vo', '.vok', '.vos', '.glob'):
-                try:
-                    os.remove(path[:-2] + ext)
-                except OSError:
-                    pass
+            for c, mp, ln in zip(ch, maps, lines):
+                if ln == 'K':
+                    continue
+                t = ln.split()
+                i = int(t[1])
+                disagreements.append((c, mp[i] if i < len(mp) else -1, ' '.join(t[2:])))
+            try:
+                os.remove(path)
+            except OSError:
+                pass
     return disagreements, aux, errors
